@@ -211,9 +211,16 @@ class Poison:
     def __enter__(self):
         if self.pattern is None:
             return self
-        import copulas.multivariate.tree as tree
-        import copulas.multivariate.vine as vine
-        for mod in (tree, vine):
+        # every loaded module of the library that has a module-level ``np`` (historically only
+        # tree.py and vine.py allocate with np.empty; a new np.empty anywhere else is covered
+        # the day it appears)
+        import copulas.multivariate.tree  # noqa: F401
+        import copulas.multivariate.vine  # noqa: F401
+        import types
+        mods = [m for k, m in sorted(sys.modules.items())
+                if (k == 'copulas' or k.startswith('copulas.')) and isinstance(m, types.ModuleType)
+                and getattr(m, 'np', None) is not None]
+        for mod in mods:
             real = mod.np
             if isinstance(real, _NpProxy):
                 real = real._real
@@ -420,7 +427,12 @@ class FailingMarginal:
     PARAMETRIC = None
     BOUNDED = None
 
-    def __init__(self, base=None, mode='never', _shared=None, tag='P'):
+    EXCEPTIONS = {'RuntimeError': RuntimeError, 'NotImplementedError': NotImplementedError,
+                  'ValueError': ValueError, 'KeyError': KeyError, 'TypeError': TypeError,
+                  'ZeroDivisionError': ZeroDivisionError, 'FloatingPointError': FloatingPointError,
+                  'AssertionError': AssertionError, 'OverflowError': OverflowError}
+
+    def __init__(self, base=None, mode='never', _shared=None, tag='P', exc='RuntimeError'):
         from copulas.utils import get_instance
         self._base_spec = base
         self.mode = mode
@@ -432,7 +444,9 @@ class FailingMarginal:
         self.random_state = None
         # what get_instance() uses to clone a prototype
         self.__args__ = ()
-        self.__kwargs__ = {'base': base, 'mode': mode, '_shared': self._shared, 'tag': tag}
+        self.exc = exc
+        self.__kwargs__ = {'base': base, 'mode': mode, '_shared': self._shared, 'tag': tag,
+                           'exc': exc}
 
     def fit(self, X):
         self._shared['fits'] += 1
@@ -440,7 +454,8 @@ class FailingMarginal:
         if self.mode == 'always' or (self.mode == 'first' and k == 1) or \
                 (self.mode == 'second' and k == 2):
             self._shared['failed'] += 1
-            raise RuntimeError('injected plug-in failure (%s, fit #%d)' % (self.mode, k))
+            raise self.EXCEPTIONS.get(self.exc, RuntimeError)(
+                'injected plug-in failure (%s, fit #%d)' % (self.mode, k))
         self._inner.fit(X)
         self.fitted = True
 
